@@ -140,6 +140,8 @@ def run(ctx):
            exhaustive=True,
            constants={"tokens": len(toks), "MaxExts": max_exts, "paths": len(paths), "variants": nvar,
                       "mimetypes_configs": CFGS})
+    from .. import pipeline_check
+    pipeline_check.run(ctx)        # backbone: routing is the first stage of the composed read_file() machine
     ev.assume("README tables transcribed by hand into Router.tla (Documented)",
               "mimetypes.guess_type is observed (logged as 'guess'), not modelled",
               "extension tokens beyond the tables: 8 MIME-only + 5 unknown representatives")
